@@ -41,9 +41,9 @@ EXHAUSTIVE_NOTE = "all directed mixed graphs on 3 labelled nodes A,B,C (per pair
 
 def strategy(tier):
     return st.one_of(
-        gen.admgs(2, 5).map(lambda g: {"g": g}),
+        gen.with_aux_names(gen.admgs(2, 5)).map(lambda g: {"g": g}),
         gen.admgs(3, 5, bi_densities=(3, 5, 7), di_densities=(3, 5, 7)).map(lambda g: {"g": g}),
-        gen.embedded_admgs(1).map(lambda g: {"g": g}),
+        gen.with_aux_names(gen.embedded_admgs(1)).map(lambda g: {"g": g}),
         gen.embedded_admgs(0, motifs=gen.SEP_MOTIFS).map(lambda g: {"g": g}),
         gen.admgs(2, 5, cyclic=True).map(lambda g: {"g": g}),
         gen.admgs(3, 5, cyclic=True, di_densities=(5, 7, 9)).map(lambda g: {"g": g}),
